@@ -421,7 +421,7 @@ def run(ctx: Ctx) -> None:
             ctx.notes.append(f"vacuity: the requirement of Interaction.tla does not reject the seeded mechanism mutant {v}")
     ctx.coverage["spec_mutants_rejected_by"] = mutants
     if not ctx.quick:
-        r4 = run_tlc("MCInteraction", None, workdir=ctx.work, name="code_n4", workers=WORKERS, cfg_text=cfg_text(4, "cScn", "code", False), timeout=3000)
+        r4 = run_tlc("MCInteraction", None, workdir=ctx.work, name="code_n4", workers=WORKERS, cfg_text=cfg_text(4, "cScn4", "code", False), timeout=3000)
         ctx.add_tlc(r4)
         ctx.log(f"TLC code N=4: {r4['distinct']} states, violated={r4['violated']}")
         if r4["violated"]:
